@@ -44,17 +44,45 @@ CLS = {'fd': 'finite_diff', 'pd': 'PartialDerivative', 'grad': 'Gradient', 'div'
        'lap': 'Laplacian'}
 DTYPES = ('float64', 'complex128', 'float32')
 # per-axis cell sides; different per axis so that a mixed-up axis shows
-H = {'unit': (1.0, 1.0, 1.0), 'dyadic': (0.5, 0.25, 2.0), 'nondyadic': (0.3, 0.7, 1.3)}
-HS = ('unit', 'dyadic', 'nondyadic')
+H = {'unit': (1.0, 1.0, 1.0), 'dyadic': (0.5, 0.25, 2.0), 'nondyadic': (0.3, 0.7, 1.3),
+     # magnitude regimes of the cell side ("dx : float ... distance between sampling points":
+     # every positive finite float is admissible).
+     # 'tiny' / 'huge': the dyadic triple shifted by 2**-30 / 2**20 - still exact arithmetic;
+     # an absolute tolerance or a magnitude guard on dx in the library shows here
+     'tiny': (2.0 ** -31, 2.0 ** -32, 2.0 ** -29), 'huge': (2.0 ** 19, 2.0 ** 18, 2.0 ** 21),
+     # 'near1*': cell sides next to - but different from - the special value 1 (for which the
+     # division is the identity), at two distances and on both sides: 2**-40 ~ 9e-13 (inside
+     # any practical tolerance band, 1000x above the 4-ulp tolerance of the oracle in double)
+     # and 2**-18 ~ 3.8e-6 (inside the default band of numpy.isclose, visible in single)
+     'near1': (1.0 + 2.0 ** -40, 1.0 - 2.0 ** -18, 1.0 + 2.0 ** -18),
+     'near1m': (1.0 - 2.0 ** -18, 1.0 + 2.0 ** -40, 1.0 - 2.0 ** -40),
+     # integral steps, handed to finite_diff as Python ints (variant 'dxint')
+     'int': (2.0, 1.0, 4.0)}
+HS = ('unit', 'dyadic', 'nondyadic', 'int', 'tiny', 'huge', 'near1', 'near1m')
+# cell sides by which the division is not exact: tolerance 4 eps * magnitude
+INEXACT_H = ('nondyadic', 'near1', 'near1m')
 DEFAULT_VAR = {'fd': 'c', 'pd': 'default', 'grad': 'domain', 'div': 'range', 'lap': 'default'}
 # fd: memory layout of f and out; 'list': f given as a nested list (documented "array-like")
 # operators: how domain / range are passed; 'otherprec': range of the other real precision;
 # 'bdry': nodes_on_bdry=True (cell side = node spacing max/(n-1))
-VARIANTS = {'fd': ('forder', 'strided', 'list'),
-            'pd': ('explicit', 'otherprec', 'bdry'),
-            'grad': ('range', 'both', 'otherprec', 'bdry'),
-            'div': ('domain', 'both', 'otherprec', 'bdry'),
-            'lap': ('explicit', 'otherprec', 'bdry')}
+# all kinds: 'minkw': only the keywords that differ from the documented defaults are given
+# (finite_diff docstring: "Per default forward difference with dx=1 and no padding is used
+# ... Parameters can be changed one by one"; signature defaults method='forward',
+# pad_mode='constant', pad_const=0, dx=1.0, range=None); 'positional': every argument given
+# positionally in the documented order of the signature
+# fd: 'dxint' / 'dxf32': the step given as a Python int / a numpy.float32 scalar
+# operators: 'weight': domain with a constant weighting other than the cell volume (uniformly
+# weighted all the same: adjoint == transpose is demanded)
+VARIANTS = {'fd': ('forder', 'strided', 'list', 'minkw', 'positional', 'dxint', 'dxf32'),
+            'pd': ('explicit', 'otherprec', 'bdry', 'minkw', 'positional', 'weight'),
+            'grad': ('range', 'both', 'otherprec', 'bdry', 'minkw', 'positional', 'weight'),
+            'div': ('domain', 'both', 'otherprec', 'bdry', 'minkw', 'positional', 'weight'),
+            'lap': ('explicit', 'otherprec', 'bdry', 'minkw', 'positional', 'weight')}
+# cell sides of the variant states (default: dyadic)
+VAR_H = {('fd', 'minkw'): ('unit', 'dyadic'), ('fd', 'dxint'): ('int',)}
+WEIGHT = 2.0
+# the documented defaults (signatures and "Per default ..." sentence of the docstrings)
+FD_DEFAULTS = {'dx': 1.0, 'method': 'forward', 'pad_mode': 'constant', 'pad_const': 0}
 V_SMALL = (-1.0, 0.5, 2.0)
 GARBAGE = 7.25
 
@@ -90,6 +118,10 @@ def _shapes(tier):
 
 
 VAR_SHAPES = [(2,), (3,), (4,), (2, 3), (3, 2, 2)]
+REGIME_HS = ('near1', 'near1m', 'tiny', 'huge')
+REGIME_SHAPES = [(2,), (3,), (4,), (5,), (2, 3), (3, 3), (3, 2, 2)]
+VALUE_SCALES = (-40, 40)
+LARGE_SHAPES = [(101,), (12, 11)]
 
 
 def _combos(kind, dtype, extra, ignored=None):
@@ -140,6 +172,47 @@ def configs(tier):
                     out.append({'kind': kind, 'method': method, 'mode': mode, 'c': c,
                                 'shape': list(shape), 'dtype': dtype, 'h': h,
                                 'var': DEFAULT_VAR[kind]})
+    # magnitude regimes of the cell side: next to 1 (both sides, two distances), tiny, huge
+    if thorough:
+        rdh = [(d, h) for d in DTYPES for h in REGIME_HS]
+        rshapes = [(n,) for n in range(2, 10)] + REGIME_SHAPES[4:]
+    else:
+        rdh = [('float64', 'near1'), ('float64', 'near1m'), ('float32', 'near1m'),
+               ('float64', 'tiny'), ('float32', 'huge'), ('complex128', 'huge')]
+        rshapes = REGIME_SHAPES
+    for shape in rshapes:
+        for dtype, h in rdh:
+            for kind in KINDS:
+                for method, mode, c in _combos(kind, dtype, False):
+                    if not _admissible(kind, mode, shape):
+                        continue
+                    out.append({'kind': kind, 'method': method, 'mode': mode, 'c': c,
+                                'shape': list(shape), 'dtype': dtype, 'h': h,
+                                'var': DEFAULT_VAR[kind]})
+    # magnitude regimes of the VALUES: all inputs and the pad constant times 2**vs (a power of
+    # two: the arithmetic stays exact); tiny values show an absolute tolerance / a "== 0"
+    # written as "is close to 0" (is_linear, derivative, shortcuts for zero input)
+    for shape in VAR_SHAPES:
+        for dtype, h in ([(d, h) for d in DTYPES for h in ('unit', 'dyadic')] if thorough else
+                         [('float64', 'dyadic'), ('float32', 'unit'), ('complex128', 'unit')]):
+            for kind in KINDS:
+                for vs in VALUE_SCALES:
+                    for method, mode, c in _combos(kind, dtype, False):
+                        if not _admissible(kind, mode, shape):
+                            continue
+                        out.append({'kind': kind, 'method': method, 'mode': mode,
+                                    'c': c * 2.0 ** vs, 'shape': list(shape), 'dtype': dtype,
+                                    'h': h, 'var': DEFAULT_VAR[kind], 'vs': vs})
+    # axis lengths / sizes beyond the size thresholds of the element arithmetic below the
+    # operators (odl switches its lincomb implementation at 100 entries)
+    for shape in LARGE_SHAPES:
+        for dtype, h in [('float64', 'unit'), ('float32', 'dyadic')]:
+            if thorough or dtype == 'float64':
+                for kind in KINDS:
+                    for method, mode, c in _combos(kind, dtype, False):
+                        out.append({'kind': kind, 'method': method, 'mode': mode, 'c': c,
+                                    'shape': list(shape), 'dtype': dtype, 'h': h,
+                                    'var': DEFAULT_VAR[kind]})
     # constructor / layout deviations from the default, on small shapes with dyadic cell sides
     for shape in VAR_SHAPES:
         for dtype in (DTYPES if thorough else ('float64', 'float32')):
@@ -149,12 +222,13 @@ def configs(tier):
                         continue
                     if var == 'list' and dtype != 'float64':
                         continue        # a nested list of Python floats is a float64 array
-                    for method, mode, c in _combos(kind, dtype, False):
-                        if not _admissible(kind, mode, shape):
-                            continue
-                        out.append({'kind': kind, 'method': method, 'mode': mode, 'c': c,
-                                    'shape': list(shape), 'dtype': dtype, 'h': 'dyadic',
-                                    'var': var})
+                    for h in VAR_H.get((kind, var), ('dyadic',)):
+                        for method, mode, c in _combos(kind, dtype, False):
+                            if not _admissible(kind, mode, shape):
+                                continue
+                            out.append({'kind': kind, 'method': method, 'mode': mode, 'c': c,
+                                        'shape': list(shape), 'dtype': dtype, 'h': h,
+                                        'var': var})
 
     def key(c):
         n = int(np.prod(c['shape']))
@@ -198,9 +272,11 @@ def _geometry(shape, h, bdry=False):
     return max_pt, dxs
 
 
-def _space(shape, dtype, h, bdry=False):
+def _space(shape, dtype, h, bdry=False, weighting=None):
     max_pt, dxs = _geometry(shape, h, bdry)
-    sp = odl.uniform_discr([0.0] * len(shape), max_pt, shape, dtype=dtype, nodes_on_bdry=bdry)
+    kw = {} if weighting is None else {'weighting': weighting}
+    sp = odl.uniform_discr([0.0] * len(shape), max_pt, shape, dtype=dtype, nodes_on_bdry=bdry,
+                           **kw)
     return sp, dxs
 
 
@@ -248,13 +324,17 @@ class Rec(object):
         self.evals = 0
         self.skipped = 0
         self.ctx = ''
+        # magnitude of the inputs: basis vectors are s * e_k, probes s * p (s a power of two)
+        self.s = 2.0 ** cfg.get('vs', 0)
 
     def bad(self, symptom, detail):
         if symptom not in self.first:
             c = self.cfg
-            self.first[symptom] = ('%s shape=%s dtype=%s cell_sides=%s %s: %s'
+            self.first[symptom] = ('%s shape=%s dtype=%s cell_sides=%s%s %s: %s'
                                    % (CLS[c['kind']], tuple(c['shape']), c['dtype'],
-                                      H[c['h']][:len(c['shape'])], self.ctx, detail))
+                                      tuple(repr(x) for x in H[c['h']][:len(c['shape'])]),
+                                      ' inputs scaled by 2**%d' % c['vs'] if c.get('vs') else '',
+                                      self.ctx, detail))
 
     def result(self, sig):
         return {'evals': self.evals, 'skipped': self.skipped, 'sig': sig,
@@ -336,11 +416,11 @@ def _images(op, rec, what, inplace=False):
     keep = None if inplace else []
     for k in range(n):
         e = np.zeros(n, dtype=dt)
-        e[k] = 1
+        e[k] = rec.s
         cols.append(_apply(op, dom, e, inplace, ran, rec, what, keep))
         if S.is_complex(dom):
             e = np.zeros(n, dtype=dt)
-            e[k] = 1j
+            e[k] = 1j * rec.s
             icols.append(_apply(op, dom, e, inplace, ran, rec, what, keep))
     y0 = _apply(op, dom, np.zeros(n, dtype=dt), inplace, ran, rec, what, keep)
     Y = np.stack(cols, axis=1)
@@ -374,7 +454,7 @@ def _history(rec, what, op, fresh, exact, eps, cplx):
     ps = _probes(nd, cplx)
     e0 = np.zeros(nd)
     e0[0] = 1
-    xs = [ps[0].astype(dt), ps[1].astype(dt), e0.astype(dt)]
+    xs = [(rec.s * ps[0]).astype(dt), (rec.s * ps[1]).astype(dt), (rec.s * e0).astype(dt)]
     g = np.full(S.flat_size(ran), GARBAGE, dtype=S.dtype_of(ran))
     buf = S.from_flat(ran, g * (1 - 0.5j) if S.is_complex(ran) else g)
     # (input index, in place?)
@@ -419,25 +499,26 @@ def _history(rec, what, op, fresh, exact, eps, cplx):
 def _compare_images(rec, symptom, what, imgs, M, b, exact, eps):
     """Images (Y, Yi, Y0) against the affine reference x -> M x + b."""
     Y, Yi, y0 = imgs
-    sc = _scale(M, b)
+    s = np.longdouble(rec.s)
+    sc = _scale(s * M, b)
     bad = _mismatch(y0, b, exact, eps, sc)
     if bad is not None:
         rec.bad('offset_differs' if symptom == 'matrix_differs' else symptom,
                 '%s(0) expected %s got %s' % (what, _fmt(b), _fmt(y0)))
-    R = M + b[:, None]
+    R = s * M + b[:, None]
     bad = _mismatch(Y, R, exact, eps, sc)
     if bad is not None:
         k = bad[1] if len(bad) == 2 else 0
-        rec.bad(symptom, '%s(e_%d) (flat C-order index) expected %s got %s'
-                % (what, k, _fmt(R[:, k]) if len(bad) == 2 else R.shape,
+        rec.bad(symptom, '%s(%s*e_%d) (flat C-order index) expected %s got %s'
+                % (what, rec.s, k, _fmt(R[:, k]) if len(bad) == 2 else R.shape,
                    _fmt(Y[:, k]) if len(bad) == 2 else Y.shape))
     if Yi is not None:
-        Ri = 1j * M + b[:, None]
+        Ri = 1j * s * M + b[:, None]
         bad = _mismatch(Yi, Ri, exact, eps, sc)
         if bad is not None:
             k = bad[1] if len(bad) == 2 else 0
-            rec.bad(symptom, '%s(1j*e_%d) expected %s got %s'
-                    % (what, k, _fmt(Ri[:, k]) if len(bad) == 2 else Ri.shape,
+            rec.bad(symptom, '%s(%s*1j*e_%d) expected %s got %s'
+                    % (what, rec.s, k, _fmt(Ri[:, k]) if len(bad) == 2 else Ri.shape,
                        _fmt(Yi[:, k]) if len(bad) == 2 else Yi.shape))
 
 
@@ -458,7 +539,7 @@ def _check_operator(rec, cfg, build, M, b, affine, exact, eps, dual_div=None):
     Y, Yi, y0 = imgs
     # 2. in place == out of place
     imgs_in = _images(op, rec, name, inplace=True)
-    sc = _scale(M, b)
+    sc = _scale(np.longdouble(rec.s) * M, b)
     for a_in, a_out, lab in zip(imgs_in, imgs, ('e_k', '1j*e_k', '0')):
         if a_in is None:
             continue
@@ -472,6 +553,7 @@ def _check_operator(rec, cfg, build, M, b, affine, exact, eps, dual_div=None):
                                        _fmt(a_out[:, k] if a_out.ndim == 2 else a_out)))
     # 3. affinity on probe vectors (all of V^N for N <= 4)
     for p in _probes(nd, cplx):
+        p = rec.s * p
         got = _apply(op, dom, p.astype(S.dtype_of(dom)), False, ran, rec, name)
         pl = p.astype(np.clongdouble if cplx else np.longdouble)
         ref = M @ pl + b
@@ -533,7 +615,7 @@ def _check_operator(rec, cfg, build, M, b, affine, exact, eps, dual_div=None):
                            _fmt(Dm[:, k]), k, _fmt(T[:, k])))
     # 6. derivative == zero-padded (linear part); for linear operators the operator itself
     zero = np.zeros(nd, dtype=S.dtype_of(dom))
-    pts = [('0', zero), ('p', _probes(nd, cplx)[0].astype(S.dtype_of(dom)))]
+    pts = [('0', zero), ('p', (rec.s * _probes(nd, cplx)[0]).astype(S.dtype_of(dom)))]
     if affine:
         pts.append(('none', None))
     for lab, pt in pts:
@@ -576,10 +658,11 @@ def _run_fd(rec, cfg):
     cplx = dtype.kind == 'c'
     c = _const(cfg['c'])
     method, mode, var = cfg['method'], cfg['mode'], cfg['var']
-    exact = cfg['h'] != 'nondyadic'
+    exact = cfg['h'] not in INEXACT_H
     eps = _eps(dtype)
     dxs = H[cfg['h']]
     n = int(np.prod(shape))
+    s = rec.s
 
     def arr(flat, is_out=False):
         a = np.asarray(flat, dtype=dtype).reshape(shape)
@@ -599,22 +682,37 @@ def _run_fd(rec, cfg):
     inputs = []
     for k in range(n):
         e = np.zeros(n, dtype=dtype)
-        e[k] = 1
+        e[k] = s
         inputs.append(('e_%d' % k, e))
         if cplx:
             e = np.zeros(n, dtype=dtype)
-            e[k] = 1j
+            e[k] = 1j * s
             inputs.append(('1j*e_%d' % k, e))
     inputs.append(('0', np.zeros(n, dtype=dtype)))
     for i, p in enumerate(_probes(n, cplx)):
-        inputs.append(('probe%d' % i, p.astype(dtype)))
+        inputs.append(('probe%d' % i, (s * p).astype(dtype)))
     for axis in range(len(shape)):
         if shape[axis] < fd.MIN_SIZE[mode]:
             rec.skipped += 1      # documented minimum size along the differentiated axis
             continue
         dx = dxs[axis]
-        rec.ctx = 'axis=%d dx=%s method=%s pad_mode=%s pad_const=%s' % (axis, dx, method, mode,
-                                                                          c)
+        rec.ctx = 'axis=%d dx=%r method=%s pad_mode=%s pad_const=%r var=%s' % (
+            axis, dx, method, mode, c, var)
+        # "dx : float ... Scalar": the same number as a Python int / a numpy.float32 scalar
+        dxv = int(dx) if var == 'dxint' else np.float32(dx) if var == 'dxf32' else dx
+        assert float(dxv) == dx
+
+        def call(f, out=None, axis=axis, dxv=dxv):
+            if var == 'positional':
+                # finite_diff(f, axis, dx=1.0, method='forward', out=None,
+                #             pad_mode='constant', pad_const=0)
+                return DO.finite_diff(f, axis, dxv, method, out, mode, c)
+            kw = {'dx': dxv, 'method': method, 'pad_mode': mode, 'pad_const': c}
+            if var == 'minkw':
+                kw = dict((k, v) for k, v in kw.items() if v != FD_DEFAULTS[k])
+            if out is not None:
+                kw['out'] = out
+            return DO.finite_diff(f, axis=axis, **kw)
         # pad_const of a real array must be real
         M, b = fd.partial(shape, axis, dx, method, mode, c if mode == 'constant' else 0)
         kept = []
@@ -625,10 +723,8 @@ def _run_fd(rec, cfg):
             what = 'finite_diff(f=%s)' % lab
             out = arr(garbage, is_out=True)
             try:
-                r1 = DO.finite_diff(f, axis=axis, dx=dx, method=method, pad_mode=mode,
-                                    pad_const=c)
-                r2 = DO.finite_diff(f, axis=axis, dx=dx, method=method, out=out,
-                                    pad_mode=mode, pad_const=c)
+                r1 = call(f)
+                r2 = call(f, out)
             except Exception as e:        # noqa: B902
                 raise LibErr(what + ' f=%s' % _fmt(flat), e)
             rec.evals += 2
@@ -637,8 +733,7 @@ def _run_fd(rec, cfg):
             if len(kept) <= 4:
                 # history form: the same out buffer used again (it holds the previous result)
                 try:
-                    DO.finite_diff(f, axis=axis, dx=dx, method=method, out=reused,
-                                   pad_mode=mode, pad_const=c)
+                    call(f, reused)
                 except Exception as e:        # noqa: B902
                     raise LibErr(what + ' f=%s, reused out' % _fmt(flat), e)
                 rec.evals += 1
@@ -682,9 +777,10 @@ def _run_op(rec, cfg):
     dtype = cfg['dtype']
     c = _const(cfg['c'])
     method, mode, var = cfg['method'], cfg['mode'], cfg['var']
-    exact = cfg['h'] != 'nondyadic'
+    exact = cfg['h'] not in INEXACT_H
     nd = len(shape)
-    sp, dxs = _space(shape, dtype, cfg['h'], bdry=(var == 'bdry'))
+    sp, dxs = _space(shape, dtype, cfg['h'], bdry=(var == 'bdry'),
+                     weighting=WEIGHT if var == 'weight' else None)
     eps = _eps(dtype)
     other = None
     if var == 'otherprec':
@@ -695,6 +791,8 @@ def _run_op(rec, cfg):
     kw = {'pad_mode': mode, 'pad_const': c}
     if kind != 'lap':
         kw['method'] = method
+    if var == 'minkw':
+        kw = dict((k, v) for k, v in kw.items() if v != FD_DEFAULTS[k])
     if kind == 'pd':
         for axis in range(nd):
             if shape[axis] < fd.MIN_SIZE[mode]:
@@ -703,8 +801,13 @@ def _run_op(rec, cfg):
             rec.ctx = 'axis=%d method=%s pad_mode=%s pad_const=%s var=%s' % (axis, method, mode,
                                                                              c, var)
             M, b = fd.partial(shape, axis, dxs[axis], method, mode, cref)
-            if var in ('default', 'bdry'):
+            if var in ('default', 'bdry', 'minkw', 'weight'):
                 build = lambda: odl.PartialDerivative(sp, axis, **kw)            # noqa: E731
+            elif var == 'positional':
+                # PartialDerivative(domain, axis, range=None, method='forward',
+                #                   pad_mode='constant', pad_const=0)
+                build = lambda: odl.PartialDerivative(sp, axis, None, method,    # noqa: E731
+                                                      mode, c)
             elif var == 'explicit':
                 build = lambda: odl.PartialDerivative(                            # noqa: E731
                     sp, axis, range=_space(shape, dtype, cfg['h'])[0], **kw)
@@ -715,8 +818,12 @@ def _run_op(rec, cfg):
     rec.ctx = 'method=%s pad_mode=%s pad_const=%s var=%s' % (method, mode, c, var)
     if kind == 'grad':
         M, b = fd.gradient(shape, dxs, method, mode, cref)
-        if var in ('domain', 'bdry'):
+        if var in ('domain', 'bdry', 'minkw', 'weight'):
             build = lambda: odl.Gradient(sp, **kw)                                # noqa: E731
+        elif var == 'positional':
+            # Gradient(domain=None, range=None, method='forward', pad_mode='constant',
+            #          pad_const=0)
+            build = lambda: odl.Gradient(sp, None, method, mode, c)               # noqa: E731
         elif var == 'range':
             build = lambda: odl.Gradient(range=odl.ProductSpace(sp, nd), **kw)    # noqa: E731
         elif var == 'both':
@@ -730,8 +837,12 @@ def _run_op(rec, cfg):
         _check_operator(rec, cfg, build, M, b, affine, exact, eps, dual_div=dual)
     elif kind == 'div':
         M, b = fd.divergence(shape, dxs, method, mode, cref)
-        if var in ('range', 'bdry'):
+        if var in ('range', 'bdry', 'minkw', 'weight'):
             build = lambda: odl.Divergence(range=sp, **kw)                        # noqa: E731
+        elif var == 'positional':
+            # Divergence(domain=None, range=None, method='forward', pad_mode='constant',
+            #            pad_const=0)
+            build = lambda: odl.Divergence(sp ** nd, None, method, mode, c)       # noqa: E731
         elif var == 'domain':
             build = lambda: odl.Divergence(odl.ProductSpace(sp, nd), **kw)        # noqa: E731
         elif var == 'both':
@@ -741,8 +852,11 @@ def _run_op(rec, cfg):
         _check_operator(rec, cfg, build, M, b, affine, exact, eps)
     elif kind == 'lap':
         M, b = fd.laplacian(shape, dxs, mode, cref)
-        if var in ('default', 'bdry'):
+        if var in ('default', 'bdry', 'minkw', 'weight'):
             build = lambda: odl.Laplacian(sp, **kw)                               # noqa: E731
+        elif var == 'positional':
+            # Laplacian(domain, range=None, pad_mode='constant', pad_const=0)
+            build = lambda: odl.Laplacian(sp, None, mode, c)                      # noqa: E731
         elif var == 'explicit':
             build = lambda: odl.Laplacian(sp, range=_space(shape, dtype, cfg['h'])[0],  # noqa
                                           **kw)
